@@ -217,3 +217,50 @@ func extraC01(c *Ctx) {
 	}
 	c.Expect("C01-R10", "handlers calling scheduleRunner", nh, 4)
 }
+
+func init() {
+	prev := registry["C01"].Run
+	registry["C01"].Run = func(c *Ctx) { prev(c); extraC01Reuse(c) }
+}
+
+// extraC01Reuse: C01-R11.
+func extraC01Reuse(c *Ctx) {
+	m := newSchedModel(c, "C01-R11")
+	info := m.info
+	c.Rule("C01-R11", "the reuse decision looks at a runner that cannot be torn down meanwhile: in needsReload the torn-down test (Options == nil) and the health check (Ping on the runner's llama, directly or through a local copied from it) are made with the runner's refMu held — an expiry arriving during an unlocked ping unloads the idle runner and the request is handed a closed one")
+	f := m.lc.fn("runnerRef.needsReload")
+	if f == nil {
+		return
+	}
+	g := c.G(f)
+	recv := core.PathOf(info, f.Decl.Recv.List[0].Names[0])
+	want := core.Path{Root: recv.Root, Fields: []*types.Var{m.fRefMu}}
+	n := 0
+	for _, h := range g.FindCalls("llm.LlamaServer.Ping") {
+		n++
+		call := h.Node.(*ast.CallExpr)
+		held := m.lc.heldAt(call).HasPath(want)
+		// the handle is the runner's own field or a local copied from it
+		se := ast.Unparen(call.Fun).(*ast.SelectorExpr)
+		own := core.FieldVar(info, se.X) == m.fLlama
+		if id, isID := ast.Unparen(se.X).(*ast.Ident); isID && !own {
+			for _, as := range g.AssignsTo(info.Uses[id]) {
+				if a, isA := as.Node.(*ast.AssignStmt); isA && len(a.Rhs) == 1 && core.FieldVar(info, a.Rhs[0]) == m.fLlama {
+					own = true
+				}
+			}
+		}
+		c.Check("C01-R11", f.Key()+" health check under the runner's refMu", c.Pos(call), held && own, "Ping must run while refMu is held; held: "+joinNames(m.lc.heldAt(call)))
+	}
+	c.Expect("C01-R11", "Ping calls in needsReload", n, 1)
+	nOpt := 0
+	for _, cb := range g.CondBlocks() {
+		x, _, isNil := core.IsNilCheck(info, cb.Cond)
+		if !isNil || core.FieldVar(info, x) != m.fOptions {
+			continue
+		}
+		nOpt++
+		c.Check("C01-R11", f.Key()+" torn-down test under the runner's refMu", c.Pos(cb.Cond), m.lc.heldAt(cb.Cond).HasPath(want), "the Options == nil test must be made with refMu held")
+	}
+	c.Expect("C01-R11", "torn-down tests in needsReload", nOpt, 1)
+}
